@@ -16,7 +16,7 @@ def _schema_ok(e):
     try:
         if ev in ("loop.wait", "clear.begin", "ntf.snap", "stop.join", "stop.pool", "stop.drain", "red.begin", "mw.check", "loop.end", "iter.end", "iter.drop"):
             return d == 0
-        if ev in ("send.full", "ch.txlock", "ch.join", "chloop.wait", "chloop.exit", "chfwd.begin"):
+        if ev in ("send.full", "ch.txlock", "ch.join", "chloop.wait", "chloop.exit", "chfwd.begin", "sub.spawned"):
             return isinstance(d["ch"], str)
         if ev in ("send.begin", "send.pop"):
             it = d["item"]
@@ -45,6 +45,9 @@ def _schema_ok(e):
         return False
 
 
+_CH = re.compile(r"(^|\.)Ch")
+
+
 def preprocess(src, dst):
     """split into runs, drop harness-only events, link the events of each thread; returns run list
     [(id, first_index, n_events)] and the list of malformed events"""
@@ -71,6 +74,14 @@ def preprocess(src, dst):
                 continue
             if not _schema_ok(e):
                 bad.append((runs[-1][0] if runs else None, e))
+            elif e["ev"] == "cb" and _CH.search(e["t"]) and e["d"]["rd"]:
+                # a delivery thread's callback reads the state some time after it took the item (two
+                # visible operations, one step of the specification): the read is not compared with
+                # the model's, but it must not be older than the state being delivered
+                d = e["d"]
+                if d["what"] == "notify" and d["rd"][:len(d["st"])] != d["st"]:
+                    bad.append((runs[-1][0] if runs else None, e))
+                d["rd"] = [["?", 0]]
             e["nx"] = 0
             recs.append(e)
             idx = len(recs)
